@@ -21,13 +21,13 @@ CHECKS = {
    text="TLC explores every abstract file reachable within k adversary edits from two authentic files (13 edit actions incl. cross-file splices, header swaps, truncation in every field class, appends) and checks AcceptMeansComplete / ReleasedIsAuthenticPrefix on the decryptor model; each explored file is concretised from specification-built records and given to the real decryptor (hooked loop, key_decrypt, pass_decrypt), and the verdict is compared with the contract's three-valued class computed in TLA+ from the abstract file (AFile!Class) during trace validation. Every single-bit flip and every proper prefix of complete files is added.",
    note="Soundness of 'splice fails' rests on the AEAD assumption (C19) and on distinct files having distinct keys (C07). Edits are bounded (2 quick, 3 thorough); bit positions within large bodies are sampled."),
  "C04": dict(engine="stream", design_ref="DESIGN.md 6 C04",
-   text="The invariant ReleasedIsAuthenticPrefix is model-checked in every state of DecLoop under every schedule and single fault; the real decryptor's write calls (bytes, offset, ciphertext consumed so far) are recorded for authentic and adversarial files under enumerated schedules and fault points and validated against D1 (no write beyond the plaintext of records authentic in position and completely consumed; bytes equal the authentic plaintext), D2 (success only after a final record and end of data), D5 (whole chunks).",
+   text="The invariant ReleasedIsAuthenticPrefix is model-checked in every state of DecLoop under every schedule and single fault; the real decryptor's write calls (bytes, offset, ciphertext consumed so far) are recorded for authentic and adversarial files under enumerated schedules and fault points and validated against D1 (no write beyond the plaintext of records authentic in position and completely consumed; bytes equal the authentic plaintext), D2 (success only after a final record and end of data), D5 (whole chunks). The adversary includes forged records. Thorough tier: the same predicates on the system-call sequence of the real binary (strace converted to the same event format), and an Apalache-discharged inductive invariant of the integer projection DecLoopInd for any number of chunks.",
    note="'No byte before the chunk verifies' is observed at the Write boundary: no byte of a chunk that does not verify, and none before its tag has been read."),
  "C10": dict(engine="stream", design_ref="DESIGN.md 6 C10",
    text="FaultSurfaces is model-checked on EncLoop/DecLoop for every schedule and every position of a fault of each kind; every enumerated (schedule, fault position, kind) is replayed through scripted Read/Write objects on the hooked loops and on the four public functions, and the traces are validated against E2/E3/D3/D4: the error names the failing side, success after a fault only for a retried Interrupted, accepted bytes are a prefix of the same implementation's fault-free run, never a panic or a spin.",
    note="One fault per run in the quick tier (two in the model check of the thorough tier). Faults are injected only at the Read/Write boundary."),
  "C11": dict(engine="stream", design_ref="DESIGN.md 6 C11, 7",
-   text="The Lag invariant (a chunk is out before more than two further chunks are in) is model-checked on both loops; recorded traces carry per event the peak live heap of the code under test and the consumed/covered byte counts and are validated against E4/E5/D7/D8 on inputs from 0 B to tens of MiB (thorough: 1 GB) that are never held in memory.",
+   text="The Lag invariant (a chunk is out before more than two further chunks are in) is model-checked on both loops; recorded traces carry per event the peak live heap of the code under test and the consumed/covered byte counts and are validated against E4/E5/D7/D8 on inputs from 0 B to tens of MiB (thorough: 1 GB) that are never held in memory. Thorough tier: Lag for any number of chunks by Apalache (EncLoopInd, refinement-linked to EncLoop), and peak RSS of the real binary on a 512 MiB file vs a 1 MiB file.",
    note="Peak memory is a monitored field of the trace with a generous constant bound (8*CS + 1 MiB, + 34 MiB while scrypt runs): TLC does not derive memory use from the model. Only heap allocations are observed."),
  "C05": dict(engine="noise", design_ref="DESIGN.md 6 C05",
    text="TLC decides all 4608 combinations of {private key sealing, public key claimed incl. low-order, recipient addressed incl. low-order, ephemeral used / claimed incl. another message's and low-order, decrypting key, recipient_public argument, field spliced from another authentic message} on the token-level Noise X model over symbolic terms (NoiseAdv.tla) against OnlyAddressed / SenderAuthentic / NoNullKey / RespectsClass; every combination is built with the real key_encrypt and with the specification's terms, fed to the real key_decrypt, and the outcome validated against the declarative classification C05Contract by TLC (Trace_Noise); all 14 concrete low-order / non-canonical encodings are used.",
@@ -36,7 +36,7 @@ CHECKS = {
    text="The file format exists only as TLA+ terms (WireFormat/NoiseX); a small evaluator interprets the primitive symbols with the repository's exported functions. Encoder: for TLC-enumerated read partitions and injected randomness the output of key_encrypt/pass_encrypt/the chunk loop equals the evaluated terms byte for byte (also for mismatched key pairs and noise_encrypt's handshake hash). Decoder: every legal chunking enumerated by TLC (Chunkings.tla) and odd production-size chunkings, built from the terms, decrypt to plaintext and sender. Frozen: /verif/golden (written once by the pinned tree) and the repository's golden files keep decrypting and parse under the terms. Counter nonces over the 64-bit range through the hook.",
    note="A change inside a primitive that is consistent on both sides is visible only through the frozen corpus (and C18/C19). 'Earlier 1.x releases' are represented by the repository's own golden files only; no other old files exist in the sandbox."),
  "C07": dict(engine="noise", design_ref="DESIGN.md 6 C07",
-   text="NonceOnce/NonceIsIndex are model-checked on EncLoop for every schedule; Fresh.tla enumerates every history of n operations (key encryption via library and CLI, password encryption, key generation, password change) with identical inputs; each is executed and every value the code drew is recovered by specification-directed opening and every AEAD seal logged with its key and nonce; TLC validates no value drawn twice, no (key, nonce) reused, chunk i at nonce i (Trace_Fresh).",
+   text="NonceOnce/NonceIsIndex are model-checked on EncLoop for every schedule; Fresh.tla enumerates every history of n operations (key encryption via library and CLI, password encryption, key generation, password change) with identical inputs; each is executed and every value the code drew is recovered by specification-directed opening and every AEAD seal logged with its key and nonce; TLC validates no value drawn twice, no (key, nonce) reused, chunk i at nonce i (Trace_Fresh). Thorough tier: NonceIsIndex for any chunk size and any number of chunks as an inductive invariant discharged by Apalache on the integer projection EncLoopInd, linked to EncLoop by the TLC-checked refinement invariant ProjIndInv.",
    note="Freshness is judged by inequality of recovered 32-byte values within a history (2^-256 false-negative chance per pair); it does not assess the entropy source itself."),
  "C08": dict(engine="noise", design_ref="DESIGN.md 6 C08",
    text="NoIdentityInClear / ClearIndependentOfIdentity are checked by TLC on all NoiseAdv scenarios and the size formula on every EncLoop schedule; real outputs of library and CLI for pairs of encryptions differing only in identities are compared on the cleartext positions, against 132|36 + 32*records + plaintext, and searched for every encoding of both public keys and of long random keyring names (Trace_Noise, event 'clear').",
@@ -45,10 +45,10 @@ CHECKS = {
    text="Totality of the decoders is a model-level fact (DecLoop: Termination under fairness, BoundedRequest with hostile length fields, every adversarial file ends in ok or a named error); conformance: TLC enumerates input shapes per surface (Shapes.tla) and argument vectors (Argv.tla); every shape is instantiated with all lengths 0..N and all lengths around every field boundary and pushed through key_decrypt, pass_decrypt, the chunk loop, noise_decrypt, chapoly_decrypt_ietf, valid_file_format, EncodedPk/EncodedSk + decode/unlock and Keyring::new under catch_unwind with a counting allocator; every argument vector up to k words is run with the real binary; TLC validates exit status in {0,1}, 'Error:' iff 1, no panic/abort/hang, heap within a per-surface constant.",
    note="Exhaustive only in the lengths and vocabulary stated in the evidence; random bytes beyond. Built with overflow checks and debug assertions on (the profile the repository's tests use). Hang = 30 s watchdog."),
  "C12": dict(engine="cli", design_ref="DESIGN.md 6 C12",
-   text="Cli.tla models every command as the ordered list of steps the code performs, each failing for the causes C13 lists; TLC checks ExitTruthful / MatchesContract for the full product of wirings and emits the configurations; each is materialised from specification-built keys, keyrings and ciphertexts, run with the real binary, and exit status, 'Error:' line, output bytes and the 'File from' / 'Unknown key' line are validated by TLC against CliContract!Expected, which sees only the abstract request (so equal requests must give equal outcomes whatever the wiring).",
+   text="Cli.tla models every command as the ordered list of steps the code performs, each failing for the causes C13 lists; TLC checks ExitTruthful / MatchesContract for the full product of wirings and emits the configurations; each is materialised from specification-built keys, keyrings and ciphertexts, run with the real binary, and exit status, 'Error:' line, output bytes and the 'File from' / 'Unknown key' line are validated by TLC against CliContract!Expected, which sees only the abstract request (so equal requests must give equal outcomes whatever the wiring). Also: successful runs onto a longer pre-existing output, outputs that cannot be written (missing directory, /dev/full as file or stdout), and the interactive password paths on a pseudo-terminal (Prompt.tla: typed scripts of right / wrong / mismatching passwords ended by Ctrl-C).",
    note="Passwords via --env-pass and a piped stdin only; terminal prompts are out of scope. Quick tier runs every wiring for decrypt and a diagonal slice for the other commands; thorough runs the full product."),
  "C13": dict(engine="cli", design_ref="DESIGN.md 6 C13",
-   text="NoClobber / PrefixOnLaterFailure are model-checked on Cli.tla for every command x cause x prior state; every such configuration is run with the real binary and the output path's existence and bytes before/after are validated against CliContract!Expected (untouched / absent on early failure, exactly the authenticated first chunk on later failure, exit 1).",
+   text="NoClobber / PrefixOnLaterFailure are model-checked on Cli.tla for every command x cause x prior state; every such configuration is run with the real binary and the output path's existence and bytes before/after are validated against CliContract!Expected (untouched / absent on early failure, exactly the authenticated first chunk on later failure, exit 1). Includes the user backing out at a password prompt (Ctrl-C on a pseudo-terminal) and an output whose directory does not exist.",
    note="Failure causes are injected through arguments, environment and file contents; file-system I/O errors are not injected at process level (C10 does that in-process)."),
  "C14": dict(engine="cli", design_ref="DESIGN.md 6 C14",
    text="KeyLife.tla enumerates histories (initial state of F x n generations) with the invariant KeepsKeys; each history is run through `kestrel key generate -o F`; after every step: earlier bytes are a prefix, the tree's Keyring::new accepts the file and lists the sections in order, and the new key encrypts-then-decrypts through the CLI under its own password (Trace_Cli, event 'gen').",
